@@ -167,8 +167,10 @@ def _expect_out(S, v):
         return FAIL, None
     if S == "Float":
         def chk(r, want):
+            if type(r) is int and abs(r) < 2 ** 1000:
+                r = float(r)    # an int within double range is the same JSON number as its nearest double
             if not isinstance(r, float):
-                return "Float result must be a Python float, got %s" % garbage.describe(r)
+                return "Float result must be a finite double (float, or an int within double range), got %s" % garbage.describe(r)
             if not math.isfinite(r):
                 return "Float result must be finite, got %r" % r
             if want is not None and r != float(want):
@@ -291,6 +293,16 @@ def same(a, b):
     return base_type(a) is base_type(b) and (a == b or (a != a and b != b))
 
 
+def same_number(S, a, b):
+    """Float only: an int and the float it rounds to are the same value (the statement speaks of values, not of Python types)."""
+    if S != "Float" or any(isinstance(x, bool) or not isinstance(x, (int, float)) for x in (a, b)):
+        return False
+    try:
+        return float(a) == float(b)
+    except OverflowError:
+        return False
+
+
 # ------------------------------------------------------------------ engine with echo fields
 
 _ENGINE = {}
@@ -300,7 +312,14 @@ type Query {
   outDate: Date outTime: Time outDateTime: DateTime
   inInt(v: Int): String  inFloat(v: Float): String  inString(v: String): String  inBoolean(v: Boolean): String  inID(v: ID): String
   inDate(v: Date): String inTime(v: Time): String inDateTime(v: DateTime): String
+  inListInt(v: [Int!]): String  inListFloat(v: [Float!]): String  inListString(v: [String!]): String  inListBoolean(v: [Boolean!]): String  inListID(v: [ID!]): String
+  inObjInt(v: ObjInt): String  inObjFloat(v: ObjFloat): String  inObjString(v: ObjString): String  inObjBoolean(v: ObjBoolean): String  inObjID(v: ObjID): String
 }
+input ObjInt { f: Int! }
+input ObjFloat { f: Float! }
+input ObjString { f: String! }
+input ObjBoolean { f: Boolean! }
+input ObjID { f: ID! }
 """
 ALL = SCALARS + ["Date", "Time", "DateTime"]
 
@@ -320,12 +339,49 @@ async def engine():
                 return "called"
             Resolver("Query.out" + S, schema_name=name)(out)
             Resolver("Query.in" + S, schema_name=name)(inn)
+            if S in SCALARS:
+                Resolver("Query.inList" + S, schema_name=name)(inn)
+                Resolver("Query.inObj" + S, schema_name=name)(inn)
         mk()
     e = Engine(SDL, schema_name=name)
     await e.cook()
     _ENGINE["e"] = e
-    _ENGINE["scalars"] = {S: e._schema.find_scalar(S) for S in ALL}
+    _ENGINE["scalars"] = {S: boot.schema_of(e, name).find_scalar(S) for S in ALL}
     return e
+
+
+_NOT_DELIVERED = object()
+
+
+async def sdl_default_delivery(S, text):
+    """[(where, value the resolver received)] for `text` used as SDL default of an argument and of an input field."""
+    from tartiflette import Engine, Resolver
+    name = boot.fresh_schema_name("c10d")
+    seen = []
+
+    async def rec(parent, args, ctx, info):
+        seen.append(args)
+        return "called"
+    Resolver("Query.arg", schema_name=name)(rec)
+    Resolver("Query.obj", schema_name=name)(rec)
+    sdl = "input I {\n  f: %s = %s\n  g: Int\n}\n\ntype Query {\n  arg(v: %s = %s): String\n  obj(o: I): String\n}\n" % (S, text, S, text)
+    out = []
+    try:
+        e = Engine(sdl, schema_name=name)
+        await e.cook()
+        await e.execute("{ arg }")
+        out.append(("argument", seen[-1].get("v", _NOT_DELIVERED) if seen else _NOT_DELIVERED))
+        n = len(seen)
+        await e.execute("{ obj(o: {g: 1}) }")
+        out.append(("input field (literal object)", (seen[-1].get("o") or {}).get("f", _NOT_DELIVERED) if len(seen) > n else _NOT_DELIVERED))
+        n = len(seen)
+        await e.execute("query($o: I) { obj(o: $o) }", variables={"o": {"g": 1}})
+        out.append(("input field (variable object)", (seen[-1].get("o") or {}).get("f", _NOT_DELIVERED) if len(seen) > n else _NOT_DELIVERED))
+    except Exception:  # noqa  the engine may refuse a default at build time: not this property's business
+        return []
+    finally:
+        boot.forget_schema(name)
+    return out
 
 
 def direct(fn, *a):
@@ -407,7 +463,7 @@ async def check_value(ctx, v_factory, label):
                     else:
                         # idempotence: the produced result fed back as input yields the same value
                         back = direct(sc[S].coerce_input, d[1])
-                        if back[0] != "ok" or not same(back[1], d[1]):
+                        if back[0] != "ok" or not (same(back[1], d[1]) or same_number(S, back[1], d[1])):
                             ctx.violation("not-idempotent", "%s: in(out(%s)=%s) -> %s" % (S, garbage.describe(v), garbage.describe(d[1]), garbage.describe(back[1])), case)
             elif status == OK:
                 ctx.violation("result-coercion-rejected-required-value", "%s.coerce_output(%s) raised %r" % (S, garbage.describe(v), d[1]), case)
@@ -457,6 +513,24 @@ async def check_value(ctx, v_factory, label):
                     ctx.violation("engine-differs-from-scalar-object", "variable %s=%s: engine delivered %s, direct %s" % (S, garbage.describe(j), seen[:1], d), case)
                 if not accepted and (resp.get("data") is not None or not resp.get("errors")):
                     ctx.violation("invalid-variable-not-refused", repr(resp)[:200], case)
+                if accepted and d[0] == "ok":
+                    # the same variable nested in a list / object literal at a non-null position carries the same value
+                    for q, wrap in (("query($v: %s!) { inList%s(v: [$v]) }" % (S, S), lambda x: [x]),
+                                    ("query($v: %s!) { inObj%s(v: {f: $v}) }" % (S, S), lambda x: {"f": x})):
+                        seen = []
+                        await e.execute(q, variables={"v": j}, context={"seen": seen})
+                        st.inc("evaluations")
+                        st.inc("nested_variable_spellings")
+                        got = seen[0].get("v") if seen else _NOT_DELIVERED
+                        want_n = wrap(d[1])
+                        try:
+                            inner = got["f"] if isinstance(want_n, dict) else got[0]
+                            shape_ok = type(got) is type(want_n) and len(got) == 1
+                        except Exception:  # noqa
+                            inner, shape_ok = None, False
+                        if got is _NOT_DELIVERED or not shape_ok or not same(inner, d[1]):
+                            ctx.violation("nested-variable-differs-from-variable", "%s=%s nested in a literal: delivered %s, plain variable %s" % (
+                                S, garbage.describe(j), "nothing" if got is _NOT_DELIVERED else garbage.describe(got), garbage.describe(d[1])), dict(case, query=q))
             except (ValueError, TypeError):
                 pass
             # literal
@@ -482,6 +556,17 @@ async def check_value(ctx, v_factory, label):
                         ctx.violation("literal-differs-from-variable", "%s: literal %s -> %s, variable -> %s" % (S, text[:60], garbage.describe(got), garbage.describe(d[1])), dict(case, query=q[:300]))
                 elif lstatus == OK:
                     ctx.violation("literal-rejected-required-kind", "%s literal %s: %s" % (S, text[:60], repr(resp)[:200]), dict(case, query=q[:300]))
+                # the same literal written in the SDL (default of an omitted argument / of an omitted input field): the SDL
+                # parser builds its own value nodes, the scalar must treat them like the query parser's
+                if lstatus == OK and seen:
+                    for where, got2 in await sdl_default_delivery(S, text):
+                        st.inc("evaluations")
+                        st.inc("sdl_default_literals")
+                        if got2 is _NOT_DELIVERED:
+                            ctx.violation("literal-rejected-required-kind", "%s literal %s as SDL default of %s: not delivered" % (S, text[:60], where), dict(case, sdl_default=text[:300]))
+                        elif not same(got2, lwant):
+                            ctx.violation("literal-wrong-value", "%s literal %s as SDL default of %s delivered %s, expected %s" % (
+                                S, text[:60], where, garbage.describe(got2), garbage.describe(lwant)), dict(case, sdl_default=text[:300]))
 
 
 DT = [datetime.datetime(2020, 1, 2, 3, 4, 5), datetime.datetime(1999, 12, 31, 23, 59, 59), datetime.datetime(2000, 2, 29, 0, 0, 0),
